@@ -18,10 +18,12 @@ import (
 
 	libio "github.com/fatedier/golib/io"
 
+	cproxy "github.com/fatedier/frp/client/proxy"
 	"github.com/fatedier/frp/pkg/config/types"
 	v1 "github.com/fatedier/frp/pkg/config/v1"
 	"github.com/fatedier/frp/pkg/msg"
 	plugin "github.com/fatedier/frp/pkg/plugin/server"
+	"github.com/fatedier/frp/pkg/transport"
 	netpkg "github.com/fatedier/frp/pkg/util/net"
 	"github.com/fatedier/frp/server/controller"
 	"github.com/fatedier/frp/server/ports"
@@ -37,13 +39,18 @@ const wrapAddr = "127.0.10.3"
 // countConn: Close is counted; Read blocks until the first Close, then EOF; Write succeeds
 type countConn struct {
 	closes int32
+	reads  int32
 	ch     chan struct{}
 	once   sync.Once
 }
 
 func newCountConn() *countConn { return &countConn{ch: make(chan struct{})} }
 
-func (c *countConn) Read(p []byte) (int, error)  { <-c.ch; return 0, io.EOF }
+func (c *countConn) Read(p []byte) (int, error) {
+	atomic.AddInt32(&c.reads, 1)
+	<-c.ch
+	return 0, io.EOF
+}
 func (c *countConn) Write(p []byte) (int, error) { return len(p), nil }
 func (c *countConn) Close() error {
 	atomic.AddInt32(&c.closes, 1)
@@ -170,12 +177,65 @@ func tcpSite(enc, comp, lim bool, port int) (int, error) {
 	return base.count() - 1, nil
 }
 
+// clientUDPSite: the stack the CLIENT's udp proxy builds around an incoming work connection
+// (client/proxy/udp.go InWorkConn: limiter, encryption, compression, WrapReadWriteCloserToConn); the
+// proxy's Close must close the transport once.  Reported under the shape of the server's udp site
+// (same close behaviour: guarded iff a wrapper is present).
+func clientUDPSite(enc, comp, lim bool) (int, error) {
+	conf := v1.NewProxyConfigurerByType(v1.ProxyTypeUDP)
+	uc, ok := conf.(*v1.UDPProxyConfig)
+	if !ok {
+		return 0, fmt.Errorf("not a *v1.UDPProxyConfig: %T", conf)
+	}
+	uc.Name, uc.Type = "w-cudp", "udp"
+	uc.LocalIP, uc.LocalPort = wrapAddr, basePort+89
+	uc.Transport.UseEncryption, uc.Transport.UseCompression = enc, comp
+	if lim {
+		q, err := types.NewBandwidthQuantity("1MB")
+		if err != nil {
+			return 0, err
+		}
+		uc.Transport.BandwidthLimit = q
+		uc.Transport.BandwidthLimitMode = types.BandwidthLimitModeClient
+	}
+	cc := &v1.ClientCommonConfig{UDPPacketSize: 1500}
+	cc.Auth.Token = hx.DefaultToken
+	p := cproxy.NewProxy(context.Background(), conf, cc, transport.NewMessageTransporter(make(chan msg.Message, 16)), nil)
+	if p == nil {
+		return 0, fmt.Errorf("client proxy not created")
+	}
+	if err := p.Run(); err != nil {
+		return 0, err
+	}
+	base := newCountConn()
+	done := make(chan struct{})
+	go func() {
+		p.InWorkConn(base, &msg.StartWorkConn{ProxyName: "w-cudp"})
+		close(done)
+	}()
+	// the reader goroutine starts after the stack was stored in the proxy: its first Read tells
+	for i := 0; i < 1000 && atomic.LoadInt32(&base.reads) == 0; i++ {
+		time.Sleep(2 * time.Millisecond)
+	}
+	if atomic.LoadInt32(&base.reads) == 0 {
+		return 0, fmt.Errorf("the client udp proxy never read from its work connection")
+	}
+	p.Close()
+	select {
+	case <-done:
+	case <-time.After(2 * time.Second):
+		return 0, fmt.Errorf("InWorkConn did not return after Close")
+	}
+	time.Sleep(20 * time.Millisecond)
+	return base.count(), nil
+}
+
 func runConnWrap(cfg *hx.RunCfg) error {
 	hx.Quiet()
 	rec := newRecorder()
 	cf := &hx.CaseFile{Imports: coqImports, Typ: "wcase",
 		Tail: "Definition M := Eval vm_compute in mismatches check_wcase cases.\nPrint M.\nDefinition NW_GUARDED := Eval vm_compute in (count_guarded cases : Z).\nPrint NW_GUARDED.\n"}
-	note := "ShSiteUdp is not built here (the release driver observes the udp work connection end to end)"
+	note := "ShSiteUdp cases: the CLIENT's udp proxy (client/proxy InWorkConn + Close, k = 1); the server's udp site is observed end to end by the release driver"
 	g := hx.NewGen(cfg.Seed*31 + 10)
 	ks := []int{1, 2, 3}
 	g.R.Shuffle(len(ks), func(i, j int) { ks[i], ks[j] = ks[j], ks[i] })
@@ -243,6 +303,19 @@ func runConnWrap(cfg *hx.RunCfg) error {
 					continue
 				}
 				cf.Cases = append(cf.Cases, wcase(siteShape("ShSiteTcp", enc, comp, lim), 2, n))
+				sites++
+			}
+		}
+	}
+	for _, enc := range bools {
+		for _, comp := range bools {
+			for _, lim := range bools {
+				n, err := clientUDPSite(enc, comp, lim)
+				if err != nil {
+					rec.fail("site-not-built:client-udp", err.Error(), siteShape("ShSiteUdp", enc, comp, lim))
+					continue
+				}
+				cf.Cases = append(cf.Cases, wcase(siteShape("ShSiteUdp", enc, comp, lim), 1, n))
 				sites++
 			}
 		}
